@@ -6,9 +6,13 @@
                                       case <-chDie: if len(ch) > 0 { chDie = nil; continue }; return }
      update (sess.go)        select { case <-s.die: default: flush; SystemTimedSched.Put(s.update, ..) }
      readLoop (readloop.go)  for { ReadFrom -> err: return ; isClosed(): return ; packetInput }
-     monitor (readloop.go)   for { ReadFrom -> err: return ; l.packetInput(..) }   (no test of l.die)
+     monitor (readloop.go)   for { ReadFrom -> err: return ; l.packetInput(..) }
+     Listener.packetInput    no session for the address:  select { case <-l.die: return; default: }
+                             s = newUDPSession(..); l.chAccepts <- s;
+                             select { case <-l.die: l.closeBacklog(); default: }
      UDPSession.Close        close(die); flush; client && ownConn: conn.Close()
-     Listener.Close          close(l.die); ownConn: conn.Close()      (does not touch its sessions)
+     Listener.Close          close(l.die); l.closeBacklog(); ownConn: conn.Close()   (three atomic steps)
+     Listener.closeBacklog   for every s still in chAccepts: s.Close()
 
    The channel chPostProcessing is a counter q : nat with capacity `cap` (any capacity; the
    theorems are for all cap); enqueues are the non-blocking select of the output callback
@@ -24,9 +28,14 @@ Inductive ppc := PPNone | PPSel | PPBlk | PPDone.
 Inductive rlc := RLNone | RLRead | RLGot | RLIn | RLDone.
   (* RLNone: no readLoop (sessions created by a listener); RLRead: blocked in ReadFrom;
      RLGot: ReadFrom returned a packet; RLIn: isClosed() was false, inside packetInput *)
-Inductive monc := MNone | MRead | MGot | MDone.
-Inductive whc := WNone | WBacklog | WHeld.
-  (* who can reach the session: nobody yet / only the listener's accept backlog / the application *)
+Inductive monc := MNone | MRead | MGot | MChecked | MPushed | MDone.
+  (* MGot: ReadFrom returned a packet; MChecked: packetInput found no session and saw l.die open;
+     MPushed: the new session has been queued in chAccepts, l.die is about to be tested again *)
+Inductive whc := WNone | WBacklog | WHeld | WDropped.
+  (* who can reach the session: nobody yet / only the listener's accept backlog / the application /
+     nobody any more (closeBacklog took it out of chAccepts and closed it) *)
+Inductive lcc := LCNone | LCDied | LCDrained | LCDone.
+  (* progress of Listener.Close: not called / l.die closed / backlog drained / returned *)
 
 Record gst := mkS {
   die : bool;      (* s.die closed *)
@@ -39,95 +48,121 @@ Record gst := mkS {
   rl : rlc;
   mon : monc;
   wh : whc;
-  own : bool       (* ownConn of the client session, resp. of the listener *)
+  own : bool;      (* ownConn of the client session, resp. of the listener *)
+  lc : lcc
 }.
 
 (* DialWithOptions / NewConn*: the session exists, the application holds it *)
 Definition init_client (o : bool) : gst :=
-  mkS false false false 0 PPSel 1 false RLRead MNone WHeld o.
+  mkS false false false 0 PPSel 1 false RLRead MNone WHeld o LCNone.
 (* ListenWithOptions / ServeConn: only the monitor runs; the (first) session is created later *)
 Definition init_served (o : bool) : gst :=
-  mkS false false false 0 PPNone 0 false RLNone MRead WNone o.
+  mkS false false false 0 PPNone 0 false RLNone MRead WNone o LCNone.
 
 Inductive lab :=
 | E_close_sess | E_close_listener | E_close_transport | E_accept | E_enqueue | E_packet_rl | E_packet_mon
+| LC_drain | LC_sock
 | PP_consume | PP_die_more | PP_die_exit | PP_consume_blk
 | U_fire_alive | U_fire_dead | U_resubmit
 | RL_err | RL_closed | RL_alive | RL_input_done
-| M_err | M_dispatch_new | M_dispatch_old | M_reset.
+| M_err | M_check_alive | M_check_dead | M_create | M_post_alive | M_post_dead | M_dispatch_old | M_reset.
 
+(* calls of the application and events of the network; everything else is a step of the library
+   (a goroutine, a callback, or the remainder of a Close that has been called) *)
 Definition is_env (l : lab) : bool :=
   match l with
   | E_close_sess | E_close_listener | E_close_transport | E_accept | E_enqueue | E_packet_rl | E_packet_mon => true
   | _ => false
   end.
+Definition is_lib (l : lab) : bool := negb (is_env l).
+
+(* closeBacklog on the modelled session: if it is still in chAccepts it is taken out and closed *)
+Definition drop_wh (w : whc) : whc := match w with WBacklog => WDropped | _ => w end.
+Definition drop_die (w : whc) (d : bool) : bool := match w with WBacklog => true | _ => d end.
 
 Inductive step (cap : nat) : gst -> lab -> gst -> Prop :=
 (* ---- application and network ---- *)
-| s_close_sess d so ld q p pe r rl m o :
+| s_close_sess d so ld q p pe r rl m o c :
     (* UDPSession.Close by the application: needs a handle.  A client that owns its socket closes it. *)
-    step cap (mkS d so ld q p pe r rl m WHeld o) E_close_sess
-             (mkS true (so || (o && match m with MNone => true | _ => false end)) ld q p pe r rl m WHeld o)
+    step cap (mkS d so ld q p pe r rl m WHeld o c) E_close_sess
+             (mkS true (so || (o && match m with MNone => true | _ => false end)) ld q p pe r rl m WHeld o c)
 | s_close_listener d so q p pe r rl m w o :
     m <> MNone ->
-    step cap (mkS d so false q p pe r rl m w o) E_close_listener
-             (mkS d (so || o) true q p pe r rl m w o)
-| s_close_transport d so ld q p pe r rl m w o :
-    step cap (mkS d so ld q p pe r rl m w o) E_close_transport (mkS d true ld q p pe r rl m w o)
-| s_accept d so ld q p pe r rl m o :
+    step cap (mkS d so false q p pe r rl m w o LCNone) E_close_listener
+             (mkS d so true q p pe r rl m w o LCDied)
+| s_close_transport d so ld q p pe r rl m w o c :
+    step cap (mkS d so ld q p pe r rl m w o c) E_close_transport (mkS d true ld q p pe r rl m w o c)
+| s_accept d so ld q p pe r rl m o c :
     (* AcceptKCP: `case c := <-l.chAccepts` (may still win the select after l.die is closed) *)
-    step cap (mkS d so ld q p pe r rl m WBacklog o) E_accept (mkS d so ld q p pe r rl m WHeld o)
-| s_enqueue_ok d so ld q p pe r rl m w o :
+    step cap (mkS d so ld q p pe r rl m WBacklog o c) E_accept (mkS d so ld q p pe r rl m WHeld o c)
+| s_enqueue_ok d so ld q p pe r rl m w o c :
     (* output callback / SendOOB, from Write, Close, update or Input: non-blocking *)
     p <> PPNone -> q < cap ->
-    step cap (mkS d so ld q p pe r rl m w o) E_enqueue (mkS d so ld (S q) p pe r rl m w o)
-| s_enqueue_drop d so ld q p pe r rl m w o :
+    step cap (mkS d so ld q p pe r rl m w o c) E_enqueue (mkS d so ld (S q) p pe r rl m w o c)
+| s_enqueue_drop d so ld q p pe r rl m w o c :
     p <> PPNone ->
-    step cap (mkS d so ld q p pe r rl m w o) E_enqueue (mkS d so ld q p pe r rl m w o)
-| s_packet_rl d ld q p pe r m w o :
-    step cap (mkS d false ld q p pe r RLRead m w o) E_packet_rl (mkS d false ld q p pe r RLGot m w o)
-| s_packet_mon d ld q p pe r rl w o :
-    step cap (mkS d false ld q p pe r rl MRead w o) E_packet_mon (mkS d false ld q p pe r rl MGot w o)
+    step cap (mkS d so ld q p pe r rl m w o c) E_enqueue (mkS d so ld q p pe r rl m w o c)
+| s_packet_rl d ld q p pe r m w o c :
+    step cap (mkS d false ld q p pe r RLRead m w o c) E_packet_rl (mkS d false ld q p pe r RLGot m w o c)
+| s_packet_mon d ld q p pe r rl w o c :
+    step cap (mkS d false ld q p pe r rl MRead w o c) E_packet_mon (mkS d false ld q p pe r rl MGot w o c)
+(* ---- the rest of Listener.Close ---- *)
+| s_lc_drain d so ld q p pe r rl m w o :
+    step cap (mkS d so ld q p pe r rl m w o LCDied) LC_drain
+             (mkS (drop_die w d) so ld q p pe r rl m (drop_wh w) o LCDrained)
+| s_lc_sock d so ld q p pe r rl m w o :
+    step cap (mkS d so ld q p pe r rl m w o LCDrained) LC_sock (mkS d (so || o) ld q p pe r rl m w o LCDone)
 (* ---- postProcess ---- *)
-| s_pp_consume d so ld q pe r rl m w o :
-    step cap (mkS d so ld (S q) PPSel pe r rl m w o) PP_consume (mkS d so ld q PPSel pe r rl m w o)
-| s_pp_die_more so ld q pe r rl m w o :
-    step cap (mkS true so ld (S q) PPSel pe r rl m w o) PP_die_more (mkS true so ld (S q) PPBlk pe r rl m w o)
-| s_pp_die_exit so ld pe r rl m w o :
-    step cap (mkS true so ld 0 PPSel pe r rl m w o) PP_die_exit (mkS true so ld 0 PPDone pe r rl m w o)
-| s_pp_consume_blk d so ld q pe r rl m w o :
-    step cap (mkS d so ld (S q) PPBlk pe r rl m w o) PP_consume_blk (mkS d so ld q PPSel pe r rl m w o)
+| s_pp_consume d so ld q pe r rl m w o c :
+    step cap (mkS d so ld (S q) PPSel pe r rl m w o c) PP_consume (mkS d so ld q PPSel pe r rl m w o c)
+| s_pp_die_more so ld q pe r rl m w o c :
+    step cap (mkS true so ld (S q) PPSel pe r rl m w o c) PP_die_more (mkS true so ld (S q) PPBlk pe r rl m w o c)
+| s_pp_die_exit so ld pe r rl m w o c :
+    step cap (mkS true so ld 0 PPSel pe r rl m w o c) PP_die_exit (mkS true so ld 0 PPDone pe r rl m w o c)
+| s_pp_consume_blk d so ld q pe r rl m w o c :
+    step cap (mkS d so ld (S q) PPBlk pe r rl m w o c) PP_consume_blk (mkS d so ld q PPSel pe r rl m w o c)
 (* ---- update callback ---- *)
-| s_u_fire_alive so ld q p pe r rl m w o :
-    step cap (mkS false so ld q p (S pe) r rl m w o) U_fire_alive (mkS false so ld q p pe true rl m w o)
-| s_u_fire_dead so ld q p pe r rl m w o :
-    step cap (mkS true so ld q p (S pe) r rl m w o) U_fire_dead (mkS true so ld q p pe r rl m w o)
-| s_u_resubmit d so ld q p pe rl m w o :
-    step cap (mkS d so ld q p pe true rl m w o) U_resubmit (mkS d so ld q p (S pe) false rl m w o)
+| s_u_fire_alive so ld q p pe r rl m w o c :
+    step cap (mkS false so ld q p (S pe) r rl m w o c) U_fire_alive (mkS false so ld q p pe true rl m w o c)
+| s_u_fire_dead so ld q p pe r rl m w o c :
+    step cap (mkS true so ld q p (S pe) r rl m w o c) U_fire_dead (mkS true so ld q p pe r rl m w o c)
+| s_u_resubmit d so ld q p pe rl m w o c :
+    step cap (mkS d so ld q p pe true rl m w o c) U_resubmit (mkS d so ld q p (S pe) false rl m w o c)
 (* ---- readLoop ---- *)
-| s_rl_err d ld q p pe r m w o :
-    step cap (mkS d true ld q p pe r RLRead m w o) RL_err (mkS d true ld q p pe r RLDone m w o)
-| s_rl_closed so ld q p pe r m w o :
-    step cap (mkS true so ld q p pe r RLGot m w o) RL_closed (mkS true so ld q p pe r RLDone m w o)
-| s_rl_alive so ld q p pe r m w o :
-    step cap (mkS false so ld q p pe r RLGot m w o) RL_alive (mkS false so ld q p pe r RLIn m w o)
-| s_rl_input_done d so ld q p pe r m w o :
-    step cap (mkS d so ld q p pe r RLIn m w o) RL_input_done (mkS d so ld q p pe r RLRead m w o)
+| s_rl_err d ld q p pe r m w o c :
+    step cap (mkS d true ld q p pe r RLRead m w o c) RL_err (mkS d true ld q p pe r RLDone m w o c)
+| s_rl_closed so ld q p pe r m w o c :
+    step cap (mkS true so ld q p pe r RLGot m w o c) RL_closed (mkS true so ld q p pe r RLDone m w o c)
+| s_rl_alive so ld q p pe r m w o c :
+    step cap (mkS false so ld q p pe r RLGot m w o c) RL_alive (mkS false so ld q p pe r RLIn m w o c)
+| s_rl_input_done d so ld q p pe r m w o c :
+    step cap (mkS d so ld q p pe r RLIn m w o c) RL_input_done (mkS d so ld q p pe r RLRead m w o c)
 (* ---- monitor ---- *)
-| s_m_err d ld q p pe r rl w o :
-    step cap (mkS d true ld q p pe r rl MRead w o) M_err (mkS d true ld q p pe r rl MDone w o)
-| s_m_dispatch_new d so ld q pe r rl o :
-    (* l.packetInput: no session for this address -> newUDPSession (go postProcess; Put(update));
-       l.chAccepts <- s.   Note: l.die is not consulted. *)
-    step cap (mkS d so ld q PPNone pe r rl MGot WNone o) M_dispatch_new
-             (mkS false so ld 0 PPSel 1 false rl MRead WBacklog o)
-| s_m_dispatch_old d so ld q p pe r rl w o :
+| s_m_err d ld q p pe r rl w o c :
+    step cap (mkS d true ld q p pe r rl MRead w o c) M_err (mkS d true ld q p pe r rl MDone w o c)
+| s_m_check_alive d so q p pe r rl o c :
+    (* no session for this address, `select { case <-l.die: return; default: }` takes default *)
+    step cap (mkS d so false q p pe r rl MGot WNone o c) M_check_alive (mkS d so false q p pe r rl MChecked WNone o c)
+| s_m_check_dead d so q p pe r rl o c :
+    (* ... a closed listener creates no more sessions *)
+    step cap (mkS d so true q p pe r rl MGot WNone o c) M_check_dead (mkS d so true q p pe r rl MRead WNone o c)
+| s_m_create d so ld q pe r rl o c :
+    (* newUDPSession (go postProcess; Put(update)); l.chAccepts <- s *)
+    step cap (mkS d so ld q PPNone pe r rl MChecked WNone o c) M_create
+             (mkS false so ld 0 PPSel 1 false rl MPushed WBacklog o c)
+| s_m_post_alive d so q p pe r rl w o c :
+    step cap (mkS d so false q p pe r rl MPushed w o c) M_post_alive (mkS d so false q p pe r rl MRead w o c)
+| s_m_post_dead d so q p pe r rl w o c :
+    (* l.die was closed meanwhile: closeBacklog() *)
+    step cap (mkS d so true q p pe r rl MPushed w o c) M_post_dead
+             (mkS (drop_die w d) so true q p pe r rl MRead (drop_wh w) o c)
+| s_m_dispatch_old d so ld q p pe r rl w o c :
     w <> WNone ->
-    step cap (mkS d so ld q p pe r rl MGot w o) M_dispatch_old (mkS d so ld q p pe r rl MRead w o)
-| s_m_reset so ld q p pe r rl w o :
+    step cap (mkS d so ld q p pe r rl MGot w o c) M_dispatch_old (mkS d so ld q p pe r rl MRead w o c)
+| s_m_reset so ld q p pe r rl w o c :
     (* conversation id mismatch with sn == 0: s.Close() from the monitor *)
     w <> WNone ->
-    step cap (mkS false so ld q p pe r rl MGot w o) M_reset (mkS true so ld q p pe r rl MRead w o).
+    step cap (mkS false so ld q p pe r rl MGot w o c) M_reset (mkS true so ld q p pe r rl MRead w o c).
 
 Inductive reach (cap : nat) (s0 : gst) : gst -> Prop :=
 | reach_init : reach cap s0 s0
@@ -145,9 +180,9 @@ Definition is_upd (l : lab) : bool :=
 Definition is_rl (l : lab) : bool :=
   match l with RL_err | RL_closed | RL_alive | RL_input_done => true | _ => false end.
 Definition is_mon (l : lab) : bool :=
-  match l with M_err | M_dispatch_new | M_dispatch_old | M_reset => true | _ => false end.
-(* everything except a further Accept: what can still happen once the application has closed
-   all it holds and makes no more calls that could hand it a backlog session *)
-Definition not_accept (l : lab) : bool := match l with E_accept => false | _ => true end.
+  match l with
+  | M_err | M_check_alive | M_check_dead | M_create | M_post_alive | M_post_dead | M_dispatch_old | M_reset => true
+  | _ => false
+  end.
 
 Definition b2n (b : bool) : nat := if b then 1 else 0.
